@@ -41,6 +41,53 @@ def phi_float(x):
     return 0.5 * math.erfc(-x / math.sqrt(2))
 
 
+# ------------------------------------------------------------------ hardening helpers: dress / non-mutation / optional arguments
+def snapshot(v):
+    if isinstance(v, np.ndarray):
+        return np.array(v, copy=True)
+    if isinstance(v, (list, tuple)):
+        return type(v)(snapshot(x) for x in v)
+    return v
+
+
+def unchanged(v, snap):
+    if isinstance(v, np.ndarray):
+        return v.dtype == snap.dtype and v.shape == snap.shape and bool(np.array_equal(v, snap))
+    if isinstance(v, (list, tuple)):
+        return type(v) == type(snap) and len(v) == len(snap) and all(unchanged(a, b) for a, b in zip(v, snap))
+    return v == snap
+
+
+def mc_pair(mc):
+    return (np.asarray(mc.P, dtype=float), np.asarray(mc.state_values, dtype=float))
+
+
+def dress_call(ctx, fname, form, fn, ref, inputs, tol=1e-12, detail=None):
+    """fn() -> MarkovChain; must not raise, must equal the canonical call `ref` = (P, state_values), must leave inputs unchanged
+    and must not return memory shared with an input"""
+    ctx.count("dress:" + form); ctx.count("dress_fn:" + fname)
+    inp = {"function": fname, "dress": form, "detail": jsonable(detail)}
+    ctx.case(("dress", fname, form, json.dumps(jsonable(detail), sort_keys=True)), nontrivial=True)
+    snaps = [snapshot(v) for v in inputs]
+    try:
+        with warnings.catch_warnings():
+            warnings.simplefilter("ignore")
+            P, sv = mc_pair(fn())
+    except Exception as e:      # noqa
+        ctx.fail("raises_on_admissible_input", "%s raised %s on %s: %s" % (fname, type(e).__name__, form, str(e)[:150]), inp, type(e).__name__, "a value")
+        return None
+    if P.shape != ref[0].shape or sv.shape != ref[1].shape or not np.allclose(P, ref[0], rtol=tol, atol=tol) or not np.allclose(sv, ref[1], rtol=tol, atol=tol * (1 + np.max(np.abs(ref[1])))):
+        ctx.fail("dress_result", "%s with %s differs from the canonical call" % (fname, form), inp, [P.ravel()[:4].tolist(), sv.ravel()[:4].tolist()],
+                 [ref[0].ravel()[:4].tolist(), ref[1].ravel()[:4].tolist()])
+    if not all(unchanged(v, s) for v, s in zip(inputs, snaps)):
+        ctx.fail("input_mutated", "%s modified an argument (%s)" % (fname, form), inp, None, None)
+    def arrays(v):
+        return [v] if isinstance(v, np.ndarray) else ([a for x in v for a in arrays(x)] if isinstance(v, (list, tuple)) else [])
+    if any(np.shares_memory(P, a) or np.shares_memory(sv, a) for v in inputs for a in arrays(v)):
+        ctx.fail("result_aliases_input", "%s returned memory shared with an argument" % fname, inp, None, None)
+    return (P, sv)
+
+
 def guarded(ctx, inp, fn):
     """run the implementation; an exception on an admissible input is itself a violation"""
     try:
@@ -300,6 +347,124 @@ def run(ctx):
     bad = ctx.coq_check("fit_discrete_mc", IMPORTS, "bool * list (list Q) * list (list Q) * list (list Q) * list (list Q)", ok, cases, chunk=8, preamble=PRE)
     for i in bad:
         ctx.mismatch("C13.Model.fit_discrete_mc (C16 nearest index + estimate_mc) vs markov.estimate.fit_discrete_mc", meta[i])
+
+    # ================= generic float parameters (non-Pythagorean rho, rho next to +-1, tiny / large sigma): float oracle for tauchen,
+    # bit-exact float model + float oracle for rouwenhorst is in the loop above (Pythagorean); here the cells are recomputed in floats
+    for it in range(40 if thorough else 14):
+        n = rng.choice([2, 3, 7, 25])
+        rho = rng.choice([1 - 1e-6, -1 + 1e-6, 0.99, -0.99, rng.uniform(-0.95, 0.95), 0.0])
+        sigma = rng.choice([1e-3, 1.0, 100.0, rng.uniform(0.01, 10)])
+        mu = rng.choice([0.0, -3.5, rng.uniform(-5, 5)])
+        n_std = rng.randrange(1, 6)
+        inp = {"function": "tauchen", "n": n, "rho": rho, "sigma": sigma, "mu": mu, "n_std": n_std, "generic_float": True}
+        ctx.count("tauchen:generic_float"); ctx.case(("tauchen_f", n, rho, sigma, mu, n_std), nontrivial=True)
+        mc = guarded(ctx, inp, lambda: tauchen(n, rho, sigma, mu, n_std))
+        if mc is not None:
+            P, y = mc_pair(mc)
+            std = math.sqrt(sigma ** 2 / (1 - rho ** 2)); xm = n_std * std
+            x = [-xm + i * (2 * xm / (n - 1)) for i in range(n)]; hs = xm / (n - 1)
+            E = np.array([[(1.0 if j == n - 1 else phi_float((x[j] - rho * x[i] + hs) / sigma)) - (0.0 if j == 0 else phi_float((x[j] - rho * x[i] - hs) / sigma))
+                           for j in range(n)] for i in range(n)])
+            sc = 1 + abs(mu / (1 - rho)) + xm
+            if P.shape != (n, n) or np.max(np.abs(P - E)) > 1e-9 or np.max(np.abs(y - (np.array(x) + mu / (1 - rho)))) > 1e-11 * sc:
+                ctx.fail("tauchen_cell", "P / grid differ from the Gaussian cell probabilities / evenly spaced grid (generic float parameters)", inp,
+                         [P.ravel()[:4].tolist(), y[:3].tolist()], [E.ravel()[:4].tolist(), (np.array(x) + mu / (1 - rho))[:3].tolist()])
+        inp = {"function": "rouwenhorst", "n": n, "rho": rho, "sigma": sigma, "mu": mu, "generic_float": True}
+        ctx.count("rouw:generic_float"); ctx.case(("rouw_f", n, rho, sigma, mu), nontrivial=True)
+        mc = guarded(ctx, inp, lambda: rouwenhorst(n, rho, sigma, mu))
+        if mc is not None:
+            P, y = mc_pair(mc)
+            sd = math.sqrt(sigma ** 2 / (1 - rho ** 2)); psi = sd * math.sqrt(n - 1)
+            sc = 1 + abs(mu / (1 - rho)) + psi
+            grid = np.array([-psi + 2 * psi * i / (n - 1) for i in range(n)]) + mu / (1 - rho)
+            cm = P @ y
+            cv = np.array([np.dot(P[i], (y - cm[i]) ** 2) for i in range(n)])
+            if (P.shape != (n, n) or P.min() < 0 or np.max(np.abs(P.sum(1) - 1)) > 1e-12 or np.max(np.abs(y - grid)) > 1e-11 * sc
+                    or np.max(np.abs(cm - (mu + rho * y))) > 1e-9 * sc or np.max(np.abs(cv - sigma ** 2)) > 1e-7 * sc * sc):
+                ctx.fail("rouwenhorst_cond_mean", "matrix/grid/conditional moments wrong for generic float parameters", inp, [y[:3].tolist(), cm[:3].tolist(), cv[:3].tolist()],
+                         [grid[:3].tolist(), (mu + rho * y)[:3].tolist(), sigma ** 2])
+
+    # ================= hardening: dress of scalar arguments, optional arguments omitted / explicit default / falsy, containers, non-mutation
+    F32 = 2e-5          # NumPy float32 scalars are processed in single precision by NumPy itself
+    ints = (("int", int), ("np.int64", np.int64), ("np.int32", np.int32), ("np.intp", np.intp), ("np.uint8", np.uint8))
+    for (n, rho, sigma, mu, n_std) in [(5, 0.5, 2.0, 1.0, 3), (2, -0.25, 1.0, 0.0, 1), (9, 0.0, 3.0, -2.0, 2)]:
+        t_ref = mc_pair(tauchen(n, rho, sigma, mu, n_std))
+        r_ref = mc_pair(rouwenhorst(n, rho, sigma, mu))
+        for iname, iconv in ints:
+            dress_call(ctx, "tauchen", "n,n_std:" + iname, lambda: tauchen(iconv(n), rho, sigma, mu, iconv(n_std)), t_ref, [], detail=[n, rho, sigma, mu, n_std])
+            if iname != "np.uint8":     # np.sqrt(np.uint8(n-1)) is a float16 in NumPy: 8-bit n is not an admissible dress for rouwenhorst
+                dress_call(ctx, "rouwenhorst", "n:" + iname, lambda: rouwenhorst(iconv(n), rho, sigma, mu), r_ref, [], detail=[n, rho, sigma, mu])
+        for fname_, fconv, tol in (("np.float64", np.float64, 1e-12), ("np.float32", np.float32, F32), ("0-d array", np.array, 1e-12)):
+            dress_call(ctx, "tauchen", "rho,sigma,mu:" + fname_, lambda: tauchen(n, fconv(rho), fconv(sigma), fconv(mu), n_std), t_ref, [], tol=tol, detail=[n, rho, sigma, mu, n_std])
+            dress_call(ctx, "rouwenhorst", "rho,sigma,mu:" + fname_, lambda: rouwenhorst(n, fconv(rho), fconv(sigma), fconv(mu)), r_ref, [], tol=tol, detail=[n, rho, sigma, mu])
+        if all(float(v) == int(v) for v in (sigma, mu)):
+            rr = int(rho) if float(rho) == int(rho) else rho
+            dress_call(ctx, "tauchen", "sigma,mu:int", lambda: tauchen(n, rr, int(sigma), int(mu), n_std), t_ref, [], detail=[n, rho, sigma, mu, n_std])
+            dress_call(ctx, "rouwenhorst", "sigma,mu:int", lambda: rouwenhorst(n, rr, int(sigma), int(mu)), r_ref, [], detail=[n, rho, sigma, mu])
+        dress_call(ctx, "tauchen", "n_std:float", lambda: tauchen(n, rho, sigma, mu, float(n_std)), t_ref, [], detail=[n, rho, sigma, mu, n_std])
+        dress_call(ctx, "tauchen", "keywords", lambda: tauchen(n=n, rho=rho, sigma=sigma, mu=mu, n_std=n_std), t_ref, [], detail=[n, rho, sigma, mu, n_std])
+        dress_call(ctx, "rouwenhorst", "keywords", lambda: rouwenhorst(n=n, rho=rho, sigma=sigma, mu=mu), r_ref, [], detail=[n, rho, sigma, mu])
+        # optional arguments: omitted vs explicit default vs falsy-but-valid
+        t3 = mc_pair(tauchen(n, rho, sigma, mu, 3)); t0 = mc_pair(tauchen(n, rho, sigma, 0.0, n_std)); r0 = mc_pair(rouwenhorst(n, rho, sigma, 0.0))
+        dress_call(ctx, "tauchen", "n_std_omitted", lambda: tauchen(n, rho, sigma, mu), t3, [], detail=[n, rho, sigma, mu])
+        dress_call(ctx, "tauchen", "mu_omitted", lambda: tauchen(n, rho, sigma, n_std=n_std), t0, [], detail=[n, rho, sigma, n_std])
+        dress_call(ctx, "tauchen", "mu=0(int)", lambda: tauchen(n, rho, sigma, 0, n_std), t0, [], detail=[n, rho, sigma, n_std])
+        dress_call(ctx, "tauchen", "mu,n_std_omitted", lambda: tauchen(n, rho, sigma), mc_pair(tauchen(n, rho, sigma, 0.0, 3)), [], detail=[n, rho, sigma])
+        dress_call(ctx, "rouwenhorst", "mu_omitted", lambda: rouwenhorst(n, rho, sigma), r0, [], detail=[n, rho, sigma])
+        dress_call(ctx, "rouwenhorst", "mu=0(int)", lambda: rouwenhorst(n, rho, sigma, 0), r0, [], detail=[n, rho, sigma])
+    dress_call(ctx, "tauchen", "rho=0(int)", lambda: tauchen(4, 0, 2.0, 1.0, 2), mc_pair(tauchen(4, 0.0, 2.0, 1.0, 2)), [])
+    dress_call(ctx, "rouwenhorst", "rho=0(int)", lambda: rouwenhorst(4, 0, 2.0, 1.0), mc_pair(rouwenhorst(4, 0.0, 2.0, 1.0)), [])
+    # results of successive calls must not alias / disturb each other (module-level buffers)
+    m1 = tauchen(6, 0.5, 1.0, 0.0, 3); P1 = np.array(m1.P, copy=True); s1 = np.array(m1.state_values, copy=True)
+    m2 = tauchen(6, -0.5, 2.0, 1.0, 2); m3 = rouwenhorst(6, 0.5, 1.0); P3 = np.array(m3.P, copy=True); m4 = rouwenhorst(6, -0.25, 2.0, 1.0)
+    ctx.count("alias:results_kept_alive", 2)
+    if (np.shares_memory(m1.P, m2.P) or np.shares_memory(m3.P, m4.P) or not np.array_equal(m1.P, P1) or not np.array_equal(m1.state_values, s1) or not np.array_equal(m3.P, P3)):
+        ctx.fail("result_changed_later", "a MarkovChain returned earlier was changed by / shares memory with a later call", {"function": "tauchen/rouwenhorst"}, None, None)
+
+    # -- estimate_mc: containers, dtypes, layouts (object arrays are rejected by MarkovChain itself: not an admissible dress)
+    for rep in range(3 if thorough else 2):
+        T = rng.choice([2, 9, 30])
+        X = [rng.randrange(0, 4) for _ in range(T)]; X[-1] = X[rng.randrange(T - 1)]
+        ref = mc_pair(estimate_mc(np.array(X, dtype=np.float64)))
+        dbl = np.repeat(np.array(X, dtype=np.int64), 2); dbl[1::2] = 77
+        big = np.full((T, 3), 55, dtype=np.int64); big[:, 2] = X
+        forms = {"list": list(X), "tuple": tuple(X), "int64": np.array(X, np.int64), "int32": np.array(X, np.int32), "uint8": np.array(X, np.uint8),
+                 "float32": np.array(X, np.float32), "strided": dbl[::2], "column_of_2d": big[:, 2], "negstride": np.array(X[::-1])[::-1], "list_float": [float(v) for v in X]}
+        for form, v in forms.items():
+            dress_call(ctx, "estimate_mc", form, lambda: estimate_mc(v), ref, [v], detail=X)
+        d = rng.choice([2, 3])
+        X2 = [[rng.randrange(0, 3) for _ in range(d)] for _ in range(T)]; X2[-1] = list(X2[rng.randrange(T - 1)])
+        ref2 = mc_pair(estimate_mc(np.array(X2, dtype=np.float64)))
+        wide = np.full((T, d + 2), 9, dtype=np.int64); wide[:, 1:d + 1] = X2
+        forms2 = {"nested_list": [list(r) for r in X2], "tuple_of_tuples": tuple(tuple(r) for r in X2), "int32_2d": np.array(X2, np.int32), "float32_2d": np.array(X2, np.float32),
+                  "F_order": np.asfortranarray(np.array(X2, np.float64)), "columns_of_wider": wide[:, 1:d + 1], "every_other_row": np.repeat(np.array(X2), 2, axis=0)[::2]}
+        for form, v in forms2.items():
+            dress_call(ctx, "estimate_mc", form, lambda: estimate_mc(v), ref2, [v], detail=X2)
+        # -- fit_discrete_mc: X and grids as lists / tuples / int / float32 arrays / views, one-point grids, order omitted vs 'C'
+        grids = [sorted(rng.sample(range(-4, 5), rng.choice([1, 2, 3]))) for _ in range(d)]
+        if rep == 0:
+            grids[0] = [grids[0][0]]                   # a one-point grid
+        Xf = [[rng.randrange(-10, 11) / 2.0 for _ in range(d)] for _ in range(T)]; Xf[-1] = list(Xf[rng.randrange(T - 1)])
+        Xa = np.array(Xf, dtype=np.float64); ga = tuple(np.array(g, dtype=np.float64) for g in grids)
+        for order in "CF":
+            reff = mc_pair(fit_discrete_mc(Xa, ga, order=order))
+            widef = np.full((T, d + 1), 0.25); widef[:, :d] = Xf
+            gforms = {"tuple_of_float_arrays": ga, "list_of_float_arrays": list(ga), "list_of_lists": [[float(v) for v in g] for g in grids], "tuple_of_tuples": tuple(tuple(float(v) for v in g) for g in grids),
+                      "int_lists": [list(g) for g in grids], "int64_arrays": tuple(np.array(g, np.int64) for g in grids), "float32_arrays": tuple(np.array(g, np.float32) for g in grids),
+                      "strided_arrays": tuple(np.repeat(np.array(g, np.float64), 2)[::2] for g in grids)}
+            xforms = {"float64": Xa, "nested_list": [list(r) for r in Xf], "float32": Xa.astype(np.float32), "F_order": np.asfortranarray(Xa), "columns_of_wider": widef[:, :d]}
+            for gname, gv in gforms.items():
+                if gname == "strided_arrays" and any(len(g) == 1 for g in grids):
+                    # a length-1 view is contiguous: the tuple of grids would mix array layouts, which numba's runtime indexing of
+                    # `nodes[i]` in _cartesian_nearest_indices rejects with a TypingError on the unchanged tree (reported; C16 territory)
+                    ctx.count("dress:skipped_mixed_layout_grids")
+                    continue
+                dress_call(ctx, "fit_discrete_mc", "grids:" + gname + "/order=" + order, lambda: fit_discrete_mc(Xa, gv, order=order), reff, [Xa, gv], detail=[Xf, grids, order])
+            for xname, xv in xforms.items():
+                dress_call(ctx, "fit_discrete_mc", "X:" + xname + "/order=" + order, lambda: fit_discrete_mc(xv, ga, order=order), reff, [xv, ga], detail=[Xf, grids, order])
+            if order == "C":
+                dress_call(ctx, "fit_discrete_mc", "order_omitted", lambda: fit_discrete_mc(Xa, ga), reff, [Xa, ga], detail=[Xf, grids])
+                dress_call(ctx, "fit_discrete_mc", "order_positional", lambda: fit_discrete_mc(Xa, ga, "C"), reff, [Xa, ga], detail=[Xf, grids])
 
 
 def replay(data):
